@@ -114,6 +114,9 @@ func UpdatePathAttrs4ByteAs(logger *slog.Logger, msg *bgp.BGPUpdate) {
 				}
 			}
 			asAttrPos = i
+			// segments may have been widened to 4-octet members: let the
+			// constructor recompute the attribute length and flags
+			asAttr = bgp.NewPathAttributeAsPath(asAttr.Value)
 			msg.PathAttributes[i] = asAttr
 		case *bgp.PathAttributeAs4Path:
 			as4AttrPos = i
